@@ -61,7 +61,12 @@ theorem cex_load (doc : JDoc) (hdoc : doc.types = some cexTypes) (ts' : TypeSyst
   | ok emb =>
     rw [hemb] at h
     simp only [merge, mergeDecls_eq_S] at h
-    rw [loadEmbeddedTs_eq _ _ (by decide), cex_toposort] at hemb
+    have hnp : ∀ jt ∈ cexTypes, ∀ jf ∈ jt.feats, jf.name.startsWith "%" = false := by
+      intro jt hjt jf hjf
+      simp only [cexTypes, List.mem_singleton] at hjt
+      subst hjt
+      cases hjf
+    rw [loadEmbeddedTs_eq _ _ (by decide) hnp, cex_toposort] at hemb
     have key : cexFinal (do
         let order ← (Except.ok ["uima.cas.TOP", "x.A"] : Except Err (List String))
         let ts1 ← order.foldlM (typeStep Gen.consts cexTypes) Gen.builtinTS
@@ -88,7 +93,14 @@ theorem json_full_ts_same_as_given_false :
   | ok p =>
     obtain ⟨doc, st⟩ := p
     have hdoc : doc.types = some cexTypes := by
-      rw [saveJson_full_types _ _ _ _ _ _ _ hs, cex_types]
+      obtain ⟨decls, hdecls, htypes⟩ := saveJson_full_types _ _ _ _ _ _ _ hs
+      have hany : (fullRecs Gen.consts cexTs).any
+          (fun t => t.own.any (fun f => (renderFeatDecl Gen.consts f).name == "%NAME")) = false := by decide +kernel
+      unfold renderTypeDecls at hdecls
+      rw [hany] at hdecls
+      simp only [Bool.false_eq_true, if_false] at hdecls
+      cases hdecls
+      rw [htypes, cex_types]
     obtain ⟨ts', hl, hsame⟩ := H cexOps ⟨trivial, fun op hop => by
       simp only [cexOps, List.mem_singleton] at hop; subst hop; trivial⟩ [Cas.empty] 0 [] doc st hs
     have hd := cex_load doc hdoc ts' hl
